@@ -17,6 +17,7 @@ CONSTANTS
   TableOnly = {"g1212"}
   OkRecomputed = TRUE
 INVARIANT InvStage
+INVARIANT InvRaisedNoVerdict
 INVARIANT InvGradesInUnit
 INVARIANT InvStaleOk
 INVARIANT InvStripped
